@@ -1,5 +1,4 @@
 import collections
-import math
 from abc import ABC, abstractmethod
 from collections.abc import Iterable, Mapping, Sequence
 from enum import Enum, EnumMeta, Flag
@@ -305,7 +304,7 @@ def flag_exact_value_dumper(data):
 
 
 def _extract_non_compound_cases_from_flag(enum: type[FlagT]) -> Sequence[FlagT]:
-    return [case for case in enum.__members__.values() if case.value and not math.log2(case.value) % 1]
+    return [case for case in enum.__members__.values() if case.value > 0 and not case.value & (case.value - 1)]
 
 
 class FlagByListProvider(BaseFlagProvider):
